@@ -426,6 +426,46 @@ use bitbybit::{bitenum, bitfield};
 """
 
 
+def enum_adapter(ed: EnumDef):
+    E = ed.name
+    n = ed.n
+    idx = " ".join(f"{E}::V{d:x} => {i}u128," for i, d in enumerate(ed.discs))
+    res = ed.exhaustive != 'true'
+    if res:
+        enc = f"match r {{ Ok(e) => (match e {{ {idx} }}), Err(y) => regmc::ERR_FLAG | (y as u128) }}"
+    else:
+        enc = f"match r {{ {idx} }}"
+    arms = " ".join(f"{i} => {base_val(n, f'{E}::V{d:x}.raw_value()')}," for i, d in enumerate(ed.discs))
+    first = f"{E}::V{ed.discs[0]:x}"
+    return f"""pub struct EM_{E};
+impl regmc::EnumMachine for EM_{E} {{
+  fn name(&self) -> &'static str {{ "{E}" }}
+  fn from_raw(&self, x: u128) -> u128 {{ let r = {E}::new_with_raw_value({base_new(n, 'x')}); {enc} }}
+  fn to_raw(&self, i: usize) -> u128 {{ match i {{ {arms} _ => panic!("harness: no such variant") }} }}
+  fn raw_size(&self) -> usize {{ std::mem::size_of_val(&{first}.raw_value()) }}
+  fn returns_result(&self) -> bool {{ {'true' if res else 'false'} }}
+}}
+const _: fn() = || {{ fn is_copy<T: Copy>() {{}} is_copy::<{E}>(); }};"""
+
+
+def enum_spec(ed: EnumDef):
+    return {"name": ed.name, "n": ed.n, "exhaustive": ed.exhaustive, "discs": [hex(d) for d in ed.discs],
+            "text": enum_decl(ed).replace("\n", " ").replace("    ", " ")}
+
+
+def enum_shard_source(eds):
+    out = [SHARD_PRELUDE]
+    for ed in eds:
+        out.append(enum_decl(ed, derive_debug=True))
+        out.append(enum_adapter(ed))
+    out.append("pub fn machines() -> Vec<Box<dyn regmc::Machine>> { vec![] }")
+    out.append("pub fn enums() -> Vec<Box<dyn regmc::EnumMachine>> { vec![")
+    for ed in eds:
+        out.append(f"  Box::new(EM_{ed.name}),")
+    out.append("] }")
+    return "\n".join(out) + "\n"
+
+
 def shard_source(structs, enums_extra=(), enum_adapters=""):
     enums, inners = required_types(structs)
     for e in enums_extra:
